@@ -79,7 +79,12 @@ def main(pid: str, tier: str, seed: int, assumptions: Sequence[str] = (), use_ho
     extra = []
     if use_horizon:
         extra = [t for t in horizon.tasks(pid, tier, seed) if catalog.BY_NAME[t[2]["cfg_name"]].family in fams]
+    from mc.checks import modeb
+
+    extra += modeb.tasks(pid, tier, seed, families=fams)
     rep = run_property(pid, tier, seed, cfgs, assumptions=list(assumptions) + [
+        "default-size configurations additionally in mode B: every schedule within 1 deviation (any action) of the "
+        "first-masked-in-action base schedule, run to termination or to the listed cap (models <cfg>@modeB)",
         "reset keys limited to the per-configuration window PRNGKey(0..K-1); tiny configurations explored to "
         "closure or to the listed state cap, default-size ones to the listed depth",
         "the reference model is an independent NumPy statement of the documented rules (mc/ref/<family>.py)",
